@@ -31,6 +31,8 @@ pub struct Layout {
     /// ONE source line (`FOR I = 1 TO 2: FOR J = 1 TO 3: PRINT I; J: NEXT: NEXT`), so that nested
     /// constructs share their row
     pub one_line_blocks: bool,
+    /// write assignments with the keyword LET and SUB calls as `CALL Name(arguments)`
+    pub let_and_call: bool,
 }
 
 impl Default for Layout {
@@ -45,6 +47,7 @@ impl Default for Layout {
             trailing_comments: false,
             colon_join: false,
             one_line_blocks: false,
+            let_and_call: false,
         }
     }
 }
@@ -269,7 +272,7 @@ impl<'a> P<'a> {
     fn simple_text(&self, k: &K) -> String {
         let b = self.l.blank;
         match k {
-            K::Assign(l, r) => format!("{}{}={}{}", self.expr(l), b, b, self.expr(r)),
+            K::Assign(l, r) => format!("{}{}{}={}{}", if self.l.let_and_call { format!("{}{}", self.kw("LET"), b) } else { String::new() }, self.expr(l), b, b, self.expr(r)),
             K::Print { dev, using, items } => {
                 let mut s = match dev {
                     Dev::Screen => self.kw("PRINT"),
@@ -333,6 +336,13 @@ impl<'a> P<'a> {
                     })
                     .collect();
                 format!("{}{}{}", s, b, vs.join(&format!(",{}", b)))
+            }
+            K::Call(n, args) if self.l.let_and_call => {
+                if args.is_empty() {
+                    format!("{}{}{}", self.kw("CALL"), b, self.id(n))
+                } else {
+                    format!("{}{}{}({})", self.kw("CALL"), b, self.id(n), args.iter().map(|x| self.expr(x)).collect::<Vec<_>>().join(&format!(",{}", b)))
+                }
             }
             K::Call(n, args) => {
                 if args.is_empty() {
